@@ -147,6 +147,8 @@ func (r *c20run) scenario(x *vs.X) func(end, msg string) error {
 		conf = map[string]any{"type": "grpc/scenario", "file": "/gsc19.yaml", "limit": c.Shots}
 	case "scenario":
 		conf = map[string]any{"type": "grpc/scenario", "file": "/gsc20.yaml", "limit": c.Shots}
+	case "sfail":
+		conf = map[string]any{"type": "grpc/scenario", "file": "/gsc20f.yaml", "limit": c.Shots}
 	default:
 		var sb strings.Builder
 		for _, e := range c.Entries {
@@ -188,7 +190,7 @@ func (r *c20run) scenario(x *vs.X) func(end, msg string) error {
 	var guns []gunLike
 	for i := 0; i < c.Instances; i++ {
 		deps := core.GunDeps{Ctx: context.Background(), Log: nop, PoolID: "p", InstanceID: i}
-		if c.Mode == "scenario" || c.Mode == "scodes" {
+		if c.Mode == "scenario" || c.Mode == "scodes" || c.Mode == "sfail" {
 			g := grpcscenario.NewGun(grpcscenario.GunConfig{Target: "t", Timeout: timeout})
 			grpcscenario.ZvBind(g, gAgg{&r.samples}, deps, grpcdynamic.NewStub(ch), services)
 			guns = append(guns, g)
@@ -243,6 +245,8 @@ func (r *c20run) scenario(x *vs.X) func(end, msg string) error {
 			return r.checkEntries()
 		case "scenario":
 			return r.checkScenario()
+		case "sfail":
+			return r.checkFail()
 		case "codes":
 			return r.checkCodes()
 		case "scodes":
@@ -420,6 +424,83 @@ scenarios:
     requests: [c1, c2]
 `
 
+// c20failYAML: the second call's payload template fails while it is being rendered (an index
+// beyond the data source), after part of its text has been produced; the shot stops there.
+const c20failYAML = `variable_sources:
+  - name: users
+    type: file/csv
+    file: /users.csv
+    fields: [user_id, name]
+    ignore_first_line: true
+    delimiter: ','
+calls:
+  - name: c1
+    tag: hello
+    call: target.TargetService.Hello
+    metadata:
+      u: '{{.request.c1.preprocessor.u}}'
+      fixed: v
+    payload: '{"name": "{{.request.c1.preprocessor.u}}"}'
+    preprocessors:
+      - type: prepare
+        mapping:
+          u: source.users[next].name
+  - name: cbad
+    tag: bad
+    call: target.TargetService.Hello
+    metadata: {part: m}
+    payload: '{"name": "partial{{index .source.users 99}}"}'
+  - name: c2
+    tag: order
+    call: target.TargetService.Order
+    payload: '{"token": "t", "user_id": 5, "item_id": 7}'
+scenarios:
+  - name: s1
+    requests: [c1, cbad, c2]
+`
+
+func mdKeys(md metadata.MD) string {
+	ks := make([]string, 0, len(md))
+	for k := range md {
+		ks = append(ks, k)
+	}
+	sort.Strings(ks)
+	return strings.Join(ks, ",")
+}
+
+// checkFail: every call that goes out is c1 exactly as written; the entry whose template fails sends
+// nothing and leaves nothing behind for the next shot.
+func (r *c20run) checkFail() error {
+	c := r.cell
+	if len(r.calls) != c.Shots {
+		return fmt.Errorf("CALLS: %d calls for %d shots of a scenario whose second call cannot be rendered (one call per shot is sent)", len(r.calls), c.Shots)
+	}
+	var names []string
+	for i, g := range r.calls {
+		if g.Method != "/target.TargetService/Hello" {
+			return fmt.Errorf("METHOD: call %d is %s", i, g.Method)
+		}
+		var m struct{ Name string }
+		if err := json.Unmarshal([]byte(g.JSON), &m); err != nil || len(m.Name) != 1 {
+			return fmt.Errorf("MESSAGE: call %d sent as %s, the entry's payload is {\"name\": <row>}", i, g.JSON)
+		}
+		if ks := mdKeys(g.MD); ks != "fixed,u" || g.MD.Get("u")[0] != m.Name || g.MD.Get("fixed")[0] != "v" {
+			return fmt.Errorf("METADATA: call %d carries metadata %v, the entry defines u=%s fixed=v", i, g.MD, m.Name)
+		}
+		names = append(names, m.Name)
+	}
+	sort.Strings(names)
+	want := make([]string, 0, c.Shots)
+	for i := 0; i < c.Shots; i++ {
+		want = append(want, []string{"a", "b", "c"}[i%3])
+	}
+	sort.Strings(want)
+	if fmt.Sprint(names) != fmt.Sprint(want) {
+		return fmt.Errorf("NEXT: %d shots used rows %v, consecutive rows are %v", c.Shots, names, want)
+	}
+	return nil
+}
+
 func (r *c20run) checkScenario() error {
 	c := r.cell
 	for i, d := range r.defs {
@@ -445,6 +526,9 @@ func (r *c20run) checkScenario() error {
 			if f := g.MD.Get("fixed"); len(f) != 1 || f[0] != "v" {
 				return fmt.Errorf("METADATA: fixed=%v", f)
 			}
+			if ks := mdKeys(g.MD); ks != "fixed,u" {
+				return fmt.Errorf("METADATA: Hello call carries metadata keys [%s], the entry defines [fixed,u]", ks)
+			}
 			names = append(names, m.Name)
 		case "/target.TargetService/Order":
 			var m struct {
@@ -455,6 +539,9 @@ func (r *c20run) checkScenario() error {
 			_ = json.Unmarshal([]byte(g.JSON), &m)
 			if w := g.MD.Get("who"); len(w) != 1 || w[0] != m.Token {
 				return fmt.Errorf("METADATA: Order call carries metadata who=%v but payload token %q", w, m.Token)
+			}
+			if ks := mdKeys(g.MD); ks != "who" {
+				return fmt.Errorf("METADATA: Order call carries metadata keys [%s], the entry defines [who]", ks)
 			}
 			if m.UserID != "5" || m.ItemID != "7" {
 				return fmt.Errorf("MESSAGE: Order payload sent as %s", g.JSON)
@@ -564,6 +651,12 @@ func c20cells(thorough bool) []C20Cell {
 	if thorough {
 		out = append(out, C20Cell{Mode: "scenario", TimeoutMs: 0, Instances: 3, Shots: 4, Bound: 1})
 	}
+	for _, shots := range []int{1, 2, 3} {
+		out = append(out, C20Cell{Mode: "sfail", TimeoutMs: 2000, Instances: 1, Shots: shots})
+		if shots > 1 {
+			out = append(out, C20Cell{Mode: "sfail", TimeoutMs: 2000, Instances: 2, Shots: shots, Bound: 1})
+		}
+	}
 	// C19 for gRPC: every status code and failure kind in every position of a 3-call history
 	all := []int{0, 1, 2, 3, 4, 5, 6, 7, 8, 9, 10, 11, 12, 13, 14, 15, 16, 17, 99, -1, -2}
 	for _, a := range all {
@@ -622,6 +715,7 @@ func reflectionTier(out *hutil.Out) {
 
 func runC20(t interface{ Fatal(...any) }, spec *hutil.Spec, out *hutil.Out, e *vs.Explorer) {
 	_ = afero.WriteFile(memfs, "/gsc20.yaml", []byte(c20scenarioYAML), 0o644)
+	_ = afero.WriteFile(memfs, "/gsc20f.yaml", []byte(c20failYAML), 0o644)
 	_ = afero.WriteFile(memfs, "/gsc19.yaml", []byte(c19grpcScenarioYAML), 0o644)
 	if spec.Worker == 0 && spec.Replay == nil {
 		reflectionTier(out)
@@ -633,7 +727,7 @@ func runC20(t interface{ Fatal(...any) }, spec *hutil.Spec, out *hutil.Out, e *v
 		if spec.Property == "C20" && c.Mode == "scodes" {
 			continue
 		}
-		if spec.Property == "C19" && c.Mode != "codes" && c.Mode != "scodes" {
+		if spec.Property == "C19" && c.Mode != "codes" && c.Mode != "scodes" && c.Mode != "sfail" {
 			continue
 		}
 		if out.OverBudget() {
